@@ -393,3 +393,8 @@ DERIVED_PY = 'glue/core/data_derived.py'
 W('C04-W-indexed-short-view-not-completed', 'C04', 'C04.g', (DERIVED_PY, "            view = list(view) + [slice(None)] * (self.ndim - len(view))\n", "            view = list(view)\n"))
 W('C04-W-indexed-ellipsis-not-replaced', 'C04', 'C04.g', (DERIVED_PY, "        if view is None or view is Ellipsis:\n", "        if view is None:\n"))
 T('C04-T-indexed-view-tuple-forms', 'C04', (DERIVED_PY, "            view = list(view) + [slice(None)] * (self.ndim - len(view))\n", "            view = tuple(view) + (slice(None),) * (self.ndim - len(view))\n"))
+
+# C12.h - F38 (protocol-3 joins) must be reported again if it returns
+STATE_PY_ = 'glue/core/state.py'
+W('C12-W-v3-joins-bare-identifiers', 'C12', 'C12.h', (STATE_PY_, "    result._key_joins = dict((context.object(k), ((context.object(v0),), (context.object(v1),)))", "    result._key_joins = dict((context.object(k), (context.object(v0), context.object(v1)))"))
+T('C12-T-v3-joins-tuple-call', 'C12', (STATE_PY_, "    result._key_joins = dict((context.object(k), ((context.object(v0),), (context.object(v1),)))", "    result._key_joins = dict((context.object(k), (tuple([context.object(v0)]), tuple([context.object(v1)])))"))
